@@ -325,12 +325,25 @@ func run(c Case) (string, map[string]int) {
 			badGroup = cl.Group
 		}
 	}
+	// calls that share their run ID with another call of the same group: one of each such set may be refused
+	sharing := map[string]int{}
+	for _, cl := range c.Calls {
+		sharing[fmt.Sprint(cl.Group, "/", cl.Run)]++
+	}
+	served := map[string]int{}
 	for i, cl := range c.Calls {
 		if cl.Group >= badGroup {
 			comparedAll = false
 			continue
 		}
 		o := outs[i]
+		set := fmt.Sprint(cl.Group, "/", cl.Run)
+		if sharing[set] > 1 && o.returned && o.res.Error != nil {
+			continue // refused (or failed like its twin): judged per set below
+		}
+		if sharing[set] > 1 && o.returned {
+			served[set]++
+		}
 		if !o.returned {
 			buf := make([]byte, 1<<16)
 			return fmt.Sprintf("Execute(%s) did not return within 30 s on a healthy connection\n%s\nsession: %s", cl.Run, firstLines(string(buf[:runtime.Stack(buf, true)]), 60), caseJSON(c)), stats
@@ -370,6 +383,30 @@ func run(c Case) (string, map[string]int) {
 		}
 		if tagOf(o.res.OutputData) != cl.Run {
 			return fmt.Sprintf("Execute(%s) received the result of run %q\nsession: %s", cl.Run, tagOf(o.res.OutputData), caseJSON(c)), stats
+		}
+	}
+	for set, n := range sharing {
+		if n > 1 && served[set] == 0 && comparedAll {
+			// every call of the set was refused or failed: that can only be if the call that registered first - whichever
+			// it was - carried an input the step rejects
+			allValid := true
+			for _, cl := range c.Calls {
+				if fmt.Sprint(cl.Group, "/", cl.Run) != set {
+					continue
+				}
+				rtIn, rerr := cborRoundTrip(cl.Input.Go())
+				if rerr != nil {
+					allValid = false
+					continue
+				}
+				var werr error
+				if p := oracle.Safely(func() { _, _, werr = reference.CallStep(context.Background(), cl.Run, cl.Step, rtIn) }); p != nil || werr != nil {
+					allValid = false
+				}
+			}
+			if allValid {
+				return fmt.Sprintf("%d overlapping calls shared the run ID of set %s: none of them returned the run's result\nsession: %s", n, set, caseJSON(c)), stats
+			}
 		}
 	}
 	// ---- close and wire-level invariants
@@ -615,6 +652,19 @@ func TestSessions(t *testing.T) {
 				cl.DelayMs = rapid.IntRange(0, 4).Draw(rt, "delay")
 			default:
 				cl.Group = i / 2
+			}
+			// now and then a call carries the run ID of a call that is pending at the same time (the caller's mistake):
+			// the client refuses one of the two, the other one's result must arrive untouched
+			if !c.V1 && rapid.IntRange(0, 5).Draw(rt, "sharedRunID") == 0 {
+				for _, prev := range c.Calls {
+					if prev.Group == cl.Group && prev.Run != cl.Run && prev.Step == cl.Step {
+						cl.Run = prev.Run
+						cl.Input = withTag(cl.Input, cl.Run)
+						cl.DelayMs = 5 + cl.DelayMs
+						ev.Class("call_shares_run_id_with_pending_call", 1)
+						break
+					}
+				}
 			}
 			cl.Poke = !c.V1 && rapid.IntRange(0, 3).Draw(rt, "poke") == 0
 			cl.PokeOwn = cl.Poke && rapid.Bool().Draw(rt, "pokeOwn")
